@@ -246,6 +246,13 @@ func childC20(args []string) int {
 		pv, stack := guard(func() {
 			defer func() {
 				switch st.Op {
+				case "new", "configure", "fresh":
+					// the caller goes on using the slice it passed: the cache must not care
+					for i := range st.Dirs {
+						st.Dirs[i] = "/nonexistent/reused-by-the-caller"
+					}
+				}
+				switch st.Op {
 				case "new", "configure":
 					if st.Auto != nil {
 						autoNow = *st.Auto
